@@ -127,7 +127,10 @@ def run_case(col, r, idx):
                 wit['now'] = common.store_text(f.token_store)
                 col.violation(f'{errs[0][0]}:{op.kind}', f'after {op.desc}: {errs[0][1]}', dict(wit, all=[e[1] for e in errs[:4]]))
                 return
-            if isinstance(res, mbase.RawModel) and (op.kind.endswith(':pop') or op.kind == 'meta:pop'):
+            if isinstance(res, tuple) and len(res) == 2 and op.kind.endswith(':popitem'):
+                res = res[1]        # (key, value)
+            if isinstance(res, mbase.RawModel) and (op.kind.endswith((':pop', ':popitem')) or op.kind == 'meta:pop'):
+                col.count('popped:' + type(res).__name__)
                 col.count('popped_nodes_checked')
                 col.ev()
                 perr = walker.check_tree(res, whole_store=True) if res.token_store is not None else [('popped-node-without-store', 'popped node has no store')]
